@@ -141,6 +141,11 @@ func (br *xmpReader) readAttrValue(tag *Tag) (buf []byte, err error) {
 		if buf[0] == '=' && (buf[1] == '"' || buf[1] == '\'') {
 			delim := buf[1]
 			if b := bytes.IndexByte(buf[i:], delim); b >= 0 {
+				if i+b+2 >= len(buf) {
+					// the two bytes after the closing quote tell how the tag goes on: look further ahead
+					s += maxTagValueSize
+					continue
+				}
 				i += b
 				d = i + 1
 				if buf[i+1] == '>' {
